@@ -87,7 +87,7 @@ theorem NTT_blocks_safe_all (fuel : Nat) (hf : 64 ≤ fuel) (H : Heap) (self : N
       have hsy : Heap.Same X y :=
         NTT_iters_same fuel X self dstp src (bv N) _ _ (bv NC) nphase auxp inverse extend (hsame.size_pos hpos) y hy
       rw [bv_toNat N (by omega)]
-      refine Loop.RangeAll.of_same (fun ie s _ => NTT_loop1_same _ _ _ _ _ ie s) (fun ie st' _ hie hst' => ?_)
+      refine Loop.RangeAll.of_same (fun ie s _ => by loop_same) (fun ie st' _ hie hst' => ?_)
       have hs' := (hsame.trans hsy).trans hst'
       exact scatter_safe st' D dstp N NC _ _ ie hie how hbytes (by rw [hs'.2]; exact hD) (by rw [hs'.2]; omega) (hDd hnb2)
 
@@ -135,7 +135,7 @@ theorem NTT_safe_all (fuel : Nat) (hf : 64 ≤ fuel) (hp : Heap) (self : NTT_Gol
   have hApos : 0 < colA NC nb := Nat.lt_of_lt_of_le (colW_pos NC nb 0 hnb1 hnbNC) (colW_le NC nb 0)
   have hNA : N * colA NC nb ≤ N * NC := Nat.mul_le_mul_left _ hAN
   have hNApos : 0 < N * colA NC nb := Nat.mul_pos hN0 hApos
-  simp only [bv_div NC nb (by omega) (by omega), bv_mod NC nb (by omega) (by omega), colA_bv NC nb hNC63,
+  simp only [bv_div NC nb (by omega) (by omega), bv_mod NC nb (by omega) (by omega), add_toU64_ite, colA_bv NC nb hNC63,
     alloc_words N (colA NC nb) (by omega), bv_toNat nb (by omega)]
   generalize hDdef : (if (dst == Ptr.null) = true then src else dst) = D at *
   have hgt : decide (bv nb > 1#64) = decide (1 < nb) := by
@@ -243,9 +243,9 @@ theorem INTT_safe_all (fuel : Nat) (hf : 64 ≤ fuel) (hp : Heap) (self : NTT_Go
   refine NTT_safe_all fuel hf hp self _ src buffer N NC K nphase nblock true extend ?_
   obtain ⟨h2, h3, h4, h5, h6, h7, h8, h9, h10, h11, h12, h13, h14, h15, h16⟩ := sh
   refine ⟨h2, h3, h4, h5, h6, ?_, h8, h9, ?_, ?_, h12, h13, h14, h15, h16⟩
-  · rw [sel_dst']; exact h7
-  · rw [sel_dst']; exact h10
-  · rw [sel_dst']; exact h11
+  · ptr_norm at h7 ⊢; rw [sel_dst_p]; exact h7
+  · ptr_norm at h10 ⊢; rw [sel_dst_p]; exact h10
+  · ptr_norm at h11 ⊢; rw [sel_dst_p]; exact h11
 
 theorem NTTShape.to0 {hp : Heap} {obj : NTT_Goldilocks} {dst src buffer : Ptr} {N NC K : Nat} {extend : Bool}
     (sh : NTTShape hp obj dst src buffer N NC K extend) : NTTShape0 hp obj dst src buffer N NC K extend := by
